@@ -9,9 +9,11 @@ from .prog import Lx, Line, SP, TABS, vwidth
 OPS = {}
 
 
-def op(oid, code, ftypes=("c", "h")):
+def op(oid, code, ftypes=("c", "h"), aux=False):
+    """aux=True: not part of the violation catalogue of C02 (the tool cannot be expected to report it, e.g. a lexically
+    ambiguous site); only used to build members of the 'violating family' for the relational properties."""
     def deco(fn):
-        OPS[oid] = {"id": oid, "code": code if isinstance(code, tuple) else (code,), "fn": fn, "ftypes": ftypes}
+        OPS[oid] = {"id": oid, "code": code if isinstance(code, tuple) else (code,), "fn": fn, "ftypes": ftypes, "aux": aux}
         return fn
     return deco
 
@@ -82,14 +84,14 @@ def W03(p):
             def ap(q, i=i):
                 del q.lines[i].lex[0]
                 return i
-            yield cls_of(p, i), ap
+            yield "empty-stmt" if ln.info.get("stmt") == "empty" else cls_of(p, i), ap
 
 
 @op("W04", "TOO_MANY_TAB")
 def W04(p):
     for i, ln in enumerate(p.lines):
         if ln.kind in ("stmt", "ctrl", "else", "lbrace", "rbrace") and ln.fn >= 0:
-            c = cls_of(p, i)
+            c = "empty-stmt" if ln.info.get("stmt") == "empty" else cls_of(p, i)
             if ln.kind == "lbrace" and ln.depth == 0:
                 c = "func-lbrace"
             if ln.kind == "rbrace" and ln.depth == 0:
@@ -101,11 +103,16 @@ def W04(p):
             yield c, ap
 
 
-def _binop_positions(ln, tags=("binop", "asgop")):
+def _binop_positions(ln, tags=("binop", "asgop"), ambiguous=False):
+    """positions of binary/assignment operators written with a space on both sides.  An operator that could also be unary
+    (+ - * &) right after a parenthesised lone identifier is left out unless asked for: "(a)-1" cannot be told from a cast
+    without a symbol table, so no token-level tool can be expected to police the spacing there (DESIGN §4.1, §4.2)."""
     out = []
     for k, x in enumerate(ln.lex):
         if x.k == "op" and any(t in x.tags for t in tags):
             if 0 < k < len(ln.lex) - 1 and ln.lex[k - 1].k == "sp" and ln.lex[k + 1].k == "sp":
+                if not ambiguous and x.t in ("+", "-", "*", "&") and k >= 2 and "paren-ident-close" in ln.lex[k - 2].tags:
+                    continue
                 out.append(k)
     return out
 
@@ -854,7 +861,7 @@ def S13(p):
 # operators, keywords, parentheses
 
 
-@op("O01", "SPC_BFR_OPERATOR")
+@op("O01", ("SPC_BFR_OPERATOR", "SPC_AFTER_PAR"))   # after a closing parenthesis the rule words it from the parenthesis' side
 def O01(p):
     for i, ln in enumerate(p.lines):
         if ln.kind in ("stmt", "ctrl", "cont", "decl", "global"):
@@ -892,7 +899,7 @@ def O02b(p):
                 nxt = ln.lex[k + 2]
                 if nxt.t != "(":
                     continue
-                c = "pm" if ln.lex[k].t in ("+", "-") else "mult-or-and" if ln.lex[k].t in ("*", "&") else "other"
+                c = "pm" if ln.lex[k].t in ("+", "-") else "mult-or-and" if ln.lex[k].t in ("*", "&") else "bitor-xor" if ln.lex[k].t in ("|", "^") else "other"
                 if "cast-open" in nxt.tags:
                     c += ":before-cast"
 
@@ -1421,8 +1428,8 @@ def X01(p):
                     break
 
 
-def applicable(p):
-    return [o for o in OPS.values() if p.ftype in o["ftypes"]]
+def applicable(p, aux=False):
+    return [o for o in OPS.values() if p.ftype in o["ftypes"] and (aux or not o.get("aux"))]
 
 
 @op("S10", "MULT_IN_SINGLE_INSTR", ("c",))
@@ -1477,3 +1484,21 @@ def X03(p):
                             x.t = "ZZ_" + x.t
                 return i
             yield "other-symbol", ap
+
+
+@op("O12", ("SPC_BFR_OPERATOR", "SPC_AFTER_OPERATOR"), ("c",), aux=True)
+def O12(p):
+    # a binary + or - right after a parenthesised lone identifier: "(a) - 1" -> "(a)- 1" / "(a) -1" / "(a)-1".
+    # "(a)-1" cannot be told from a cast of -1 to the type a without a symbol table: not in the C02 catalogue.
+    for i, ln in enumerate(p.lines):
+        if ln.kind in ("stmt", "ctrl", "cont") and ln.fn >= 0:
+            for k in _binop_positions(ln, tags=("binop",), ambiguous=True):
+                if ln.lex[k].t in ("+", "-") and k >= 2 and "paren-ident-close" in ln.lex[k - 2].tags:
+                    for which in ("before", "after", "both"):
+                        def ap(q, i=i, k=k, which=which):
+                            if which in ("after", "both"):
+                                del q.lines[i].lex[k + 1]
+                            if which in ("before", "both"):
+                                del q.lines[i].lex[k - 1]
+                            return i
+                        yield "after-paren-ident:" + which, ap
